@@ -57,7 +57,10 @@ def run(module: str, cfg: str, tag: str, *, workers: int | str = "auto", dump: b
     wd = workdir(tag)
     meta = os.path.join(wd, "meta")
     shutil.rmtree(meta, ignore_errors=True)
-    cmd = ["java", "-XX:+UseParallelGC", "-Xss16m"] + (java_props or []) + ["-cp", JAR_CP, "tlc2.TLC",
+    jtmp = os.path.join(wd, "jtmp")       # TLC's own scratch directories (tlc-<n>) stay out of /tmp and are removed after the run
+    shutil.rmtree(jtmp, ignore_errors=True)
+    os.makedirs(jtmp, exist_ok=True)
+    cmd = ["java", "-XX:+UseParallelGC", "-Xss16m", "-Djava.io.tmpdir=" + jtmp] + (java_props or []) + ["-cp", JAR_CP, "tlc2.TLC",
            "-workers", str(workers), "-metadir", meta, "-noGenerateSpecTE", "-config", os.path.join(SPEC, cfg)]
     if not deadlock:
         cmd += ["-deadlock"]          # "-deadlock" DISABLES deadlock checking in TLC
@@ -88,6 +91,7 @@ def run(module: str, cfg: str, tag: str, *, workers: int | str = "auto", dump: b
     except subprocess.TimeoutExpired as ex:
         raise TLCError("TLC timed out after %ss on %s/%s" % (timeout, module, cfg)) from ex
     res.wall = time.time() - t0
+    shutil.rmtree(jtmp, ignore_errors=True)
     res.out = p.stdout
     res.rc = p.returncode
     with open(os.path.join(wd, "tlc.out"), "w") as f:
